@@ -57,6 +57,7 @@ let stats : (string, int) Hashtbl.t = Hashtbl.create 32
 let bump ?(by = 1) k = Hashtbl.replace stats k (by + (try Hashtbl.find stats k with Not_found -> 0))
 let inv_cache : (string, bool) Hashtbl.t = Hashtbl.create 64
 let hp_before_reopen : string option ref = ref None
+let reopen_expect : (int * int * entry list) list list list option ref = ref None
 let last_hp = ref "-"
 let pointers : (string * string, int * int * int * int) Hashtbl.t = Hashtbl.create 64
 (* logical view of an entry: a resolved indirection reads like a value *)
@@ -365,6 +366,9 @@ let () =
                  (List.concat_map (fun t -> t.ents) (all_tables l.ver))
            | None -> ());
           hp_before_reopen := Some !last_hp;
+          (match latest !cur with
+           | Some l -> reopen_expect := Some (List.map (fun lvl -> List.map (fun r -> List.map (fun t -> (int_of_n t.tid, int_of_n t.gseq, List.map logical t.ents)) r) lvl) l.ver.levels)
+           | None -> ());
           Hashtbl.reset tables; Hashtbl.reset mts; Hashtbl.reset inv_cache;
           Hashtbl.reset snaps;
           bump "reopens"
@@ -378,6 +382,7 @@ let () =
      | "SKIP" :: _ -> bump "skipped_moves"
      | "F" :: _ -> bump "filter_calls"
      | "R" :: "ok" :: _ -> ()
+     | "R" :: "experr" :: _ -> bump "expected_errors"
      | "R" :: "err" :: what :: rest -> fail "err" (Printf.sprintf "what=%s %s" what (String.concat " " rest))
      | "PANIC" :: _ :: rest -> fail "panic" (String.concat " " rest)
      | "FATAL" :: rest -> fail "fatal" (String.concat "_" rest)
@@ -433,6 +438,22 @@ let () =
         | Some pre, Some post when !op_idx >= 0 ->
           (try check_step_model ~wm:!wm pre post with Not_found -> ());
           apply_destructive_op pre post
+        | _ -> ());
+       (* reopen restores exactly the flushed state: same levels/runs/tables, same global
+          seqnos, same entries; memtables empty; one superversion *)
+       (match !reopen_expect, latest svs with
+        | Some want, Some post ->
+          reopen_expect := None;
+          bump "reopen_compared";
+          let got = List.map (fun lvl -> List.map (fun r -> List.map (fun t -> (int_of_n t.tid, int_of_n t.gseq, List.map logical t.ents)) r) lvl) post.ver.levels in
+          let same =
+            List.length want = List.length got &&
+            List.for_all2 (fun lw lg -> List.length lw = List.length lg &&
+                            List.for_all2 (fun rw rg -> List.length rw = List.length rg &&
+                                            List.for_all2 (fun (i, g, e) (i', g', e') -> i = i' && g = g' && entries_eq e e') rw rg) lw lg) want got in
+          if not same then fail "reopen-diff" (Printf.sprintf "version after reopen differs from the flushed state: layout=%s" (layout post.ver));
+          if post.active.ments <> [] || post.sealed <> [] then fail "reopen-diff" "memtables not empty after reopen";
+          if List.length svs <> 1 then fail "reopen-diff" "more than one superversion after reopen"
         | _ -> ());
        check_dump ~hp:(get "hp") ~hm:(get "hm") ~hs:(get "hs") svs;
        cur := svs
